@@ -545,11 +545,11 @@ func (e *Engine) opRemove(c *cursor) *Violation {
 	if me != nil {
 		op.Ent = me.H
 		// bias: remove relation targets more often than chance
-		if e.P.TargetsOnly && e.M.Targets[me.H] {
+		if (e.P.TargetsOnly || e.P.NoTargetDeath) && e.M.Targets[me.H] {
 			e.St.Skipped++ // its children would be left with a relation and no target
 			return nil
 		}
-		if c.n(100) < 35 && len(e.M.Targets) > 0 && !e.P.TargetsOnly {
+		if c.n(100) < 35 && len(e.M.Targets) > 0 && !e.P.TargetsOnly && !e.P.NoTargetDeath {
 			ts := sortedEntities(e.M.Targets)
 			for i := 0; i < len(ts); i++ {
 				t := ts[(c.n(1<<20)+i)%len(ts)]
